@@ -1,8 +1,8 @@
 """C01 — TFIM sampler and the quantum thermal state (partial by nature; see QmcProps/C01.lean)."""
-from checks import kern
+from checks import kern, law_audits
 from checks import full_step
 from checks import pure_fns
-LEAN_TARGETS = ["drv_step", "QmcProofs.SamplerStep", "QmcProofs.SamplerCluster", "QmcProps.C01", "drv_c01", "QmcProps.C08", "drv_c08", "QmcProps.C09", "drv_c09", "QmcProofs.KernelInvariance", "QmcProps.C17", "drv_c17"]
+LEAN_TARGETS = ["QmcProps.C01Capstone", "QmcProofs.KernelInvarianceCut", "QmcProps.Law", "drv_step", "QmcProofs.SamplerStep", "QmcProofs.SamplerCluster", "QmcProps.C01", "drv_c01", "QmcProps.C08", "drv_c08", "QmcProps.C09", "drv_c09", "QmcProofs.KernelInvariance", "QmcProps.C17", "drv_c17"]
 BINS = ["fullstep", "c01", "c08", "c09", "c17", "kern"]
 
 # Theorems of other properties that C01's claim rests on (kernel invariance of the SSE weight): they are
@@ -26,6 +26,17 @@ COMPOSITION_THEOREMS = [
     "Qmc.Kernel.timestep_invariant_components", "Qmc.Kernel.timestep_invariant_components_hb", "Qmc.Kernel.ising_timestep_invariant",
 ]
 
+# invariance of the TRUE SSE measure configWeight * 1_{Good}, Good = Consistent /\ Legal (QmcProofs/KernelInvarianceCut.lean)
+CUT_THEOREMS = ["Qmc.Kernel." + t for t in [
+    "slot_kernel_reversible_cut", "slot_kernel_reversible_cut_hb", "sweep_invariant_cut", "sweep_invariant_cut_hb",
+    "cluster_kernel_reversible_cut", "cluster_kernel_invariant_cut", "free_refresh_reversible_cut", "free_refresh_invariant_cut",
+    "timestep_invariant_cut_with", "timestep_invariant_cut", "timestep_invariant_cut_hb",
+    "timestep_invariant_components_cut", "timestep_invariant_components_cut_hb",
+    "ising_timestep_invariant_cut", "ising_timestep_invariant_cut_hb", "ising_timestep_invariant_cut_sum",
+    "good_of_isingInv", "good_mem_cfgSpace", "good_diag_is_canon", "sseCutOn_pos_iff", "good_insert", "good_remove",
+    "slotFlip_good", "toggleIdle_good", "clusterMove_legal", "clusterMove_good", "ofComponents_tagOK", "ofMasks_tagOK",
+    "cutTo_reversible_of_zero"]]
+
 THEOREMS = [
     "bond_matrices_sum_diag",
     "bond_matrices_sum_offdiag",
@@ -37,6 +48,13 @@ THEOREMS = [
     "sse_bond_count",
     "ising_vars_ok",
 ]
+
+# the chain joined: invariance of the true SSE measure /\ its spin marginal = diagonal of the degree-L Taylor polynomial
+# of exp(-beta (H - C)) (QmcProps/C01Capstone.lean; design_notes/Capstone.md)
+CAPSTONE_THEOREMS = ["Qmc.C01." + t for t in [
+    "sse_marginal_cfgSpace", "sse_marginal_cfgSpace_struct", "sse_reindex_cfgSpace", "sse_partition_cfgSpace",
+    "sseCutOn_marginal", "sseCutOn_total", "sse_invariant_and_marginal", "ising_bond_matrices", "isingMatrix_diag",
+    "isingMatrix_offdiag", "ising_capstone", "ising_marginal", "Example.c2_good", "Example.c2_mem"]]
 
 RULE = ("ham: random graphs 2..6 spins, 1..8 edges (multi-edges, both signs, unequal dyadic |J|), Gamma in k/8, h = 0 / > 0 / < 0: "
         "every bond x every in/out pattern of QmcIsingGraph::hamiltonian, bond count and get_offset vs isingHam; "
@@ -59,6 +77,14 @@ def main(ck):
         ck.prop = save + "c"
         ck.audit("QmcProofs.KernelInvariance", COMPOSITION_THEOREMS)
         ck.prop = save
+        if ck.lake_build(["QmcProofs.KernelInvarianceCut"]):
+            ck.prop = save + "cut"
+            ck.audit("QmcProofs.KernelInvarianceCut", CUT_THEOREMS)
+            ck.prop = save
+        if ck.lake_build(["QmcProps.C01Capstone"]):
+            ck.prop = save + "cap"
+            ck.audit("QmcProps.C01Capstone", CAPSTONE_THEOREMS)
+            ck.prop = save
     if ck.cargo_build(BINS):
         for mode in ["ham", "energy", "refresh", "pipeline"]:
             cases = ck.harness("c01", [mode])
@@ -74,4 +100,5 @@ def main(ck):
     ck.notes.append("Kernel invariance of the SSE weight is decided by C08 (slot ratio + weight_step) and C09 (cluster move "
                     "weight-preserving, symmetric); ergodicity and L -> infinity are not theorems.")
     full_step.run(ck, modes=["ising"], audit=True)   # whole-timestep exact trajectories + preservation theorems
+    law_audits.run(ck)   # idealised law of the executable model = the Markov kernel of the invariance theorems
     return ck.finish(RULE)
